@@ -178,76 +178,7 @@ def c04(ctx):
     rep.floor("C04.R3", len(runners), 1, "loop runners")
     for fn, scc, S in runners:
         rep.analysed(fn)
-        name = fn.path
-        # the state switch after the body
-        sw_bb = None
-        for bi in sorted(scc):
-            sw = tables.arms_complete(fn, bi)
-            if sw and any(of == EXEC and nm == "control_flow_state" for of, nm, _ in common.place_fields(sw[0])):
-                sw_bb = bi
-                arms = sw[2]
-        if sw_bb is None:
-            rep.fail("C04.R3", "state-switch::" + name, "no switch on control_flow_state inside the loop of %s" % name, fn.loc())
-            continue
-        ok = fn.dominates(S, sw_bb)
-        rep.ob("C04.R3", "switch-after-body::" + name, ok, "" if ok else "the state is not inspected after every execution of the body", fn.loc(), how="body call dominates the switch")
-        heads = {b for b in scc if any(p not in scc for p in fn.preds()[b])}
-        cond_sites = [bi for bi in scc if fn.term(bi)["k"] == "call" and is_callee(fn.term(bi), "analysis::visit::VisitExpr::visit_expression")]
-        want = {"Normal": (set(), True), "Continuing": ({"Normal"}, True), "Breaking": ({"Normal"}, False), "Returning": (set(), False)}
-        rep.exhaustive["loop_table"] = True
-        for v, (wwrites, wcont) in want.items():
-            tgt = arms.get(v)
-            key = "loop-table::%s::%s" % (v, name)
-            if tgt is None:
-                rep.fail("C04.R3", key, "no arm for %s" % v, fn.loc())
-                continue
-            region = fn.reachable(tgt, avoid=[S, sw_bb])
-            ws = set()
-            for b in region:
-                for s in fn.stmts(b):
-                    if s["k"] == "assign" and any(of == EXEC and nm == "control_flow_state" for of, nm, _ in common.place_fields(s["pl"])):
-                        ws |= written_variants(fn, s)
-            continues = any(c in fn.reachable(tgt, avoid=[sw_bb, S]) for c in cond_sites)
-            exits = common.path_to_return_avoiding(fn, [S, sw_bb] + cond_sites, start=tgt, through_errors=True)
-            got_cont = continues and not exits
-            got_exit = exits and not continues
-            ok = ws == wwrites and (got_cont if wcont else got_exit)
-            rep.ob("C04.R3", key, ok, "" if ok else "after the body, state %s: writes %s and %s; expected writes %s and %s" % (
-                v, sorted(ws) or "nothing", "continues" if got_cont else ("exits" if got_exit else "may do either"),
-                sorted(wwrites) or "nothing", "continue" if wcont else "exit"), fn.loc(), how="arm region: writes and continuation")
-        # no other write of the state inside the cycle (e.g. a reset at the loop head)
-        extra = []
-        arm_regions = set()
-        for v, tgt in arms.items():
-            arm_regions |= fn.reachable(tgt, avoid=[S, sw_bb] + list(heads))
-        for b in scc:
-            if b in arm_regions:
-                continue
-            for s in fn.stmts(b):
-                if s["k"] == "assign" and any(of == EXEC and nm == "control_flow_state" for of, nm, _ in common.place_fields(s["pl"])):
-                    extra.append((b, s))
-        rep.ob("C04.R3", "no-write-outside-table::" + name, not extra, "" if not extra else "the loop writes control_flow_state outside the post-body table (line %s)" % extra[0][1].get("line"),
-               fn.loc(), how="all writes of the cycle are in the four arms")
-        # condition re-evaluated before every iteration
-        conds = [bi for bi in scc if fn.term(bi)["k"] == "call" and is_callee(fn.term(bi), "analysis::visit::VisitExpr::visit_expression")
-                 and any(d[0] == "param" and d[1] == 2 for d, _ in origins(fn, fn.term(bi)["args"][1]))]
-        truth = [bi for bi in scc if fn.term(bi)["k"] == "call" and is_callee(fn.term(bi), "exec::val::Val::is_truthy")]
-        ok = len(conds) == 1 and len(truth) == 1 and S not in fn.reachable_from_succs(S, avoid=conds) and flows_into(fn, conds[0], fn.term(truth[0])["args"][0])
-        rep.ob("C04.R3", "condition-reevaluated::" + name, ok, "" if ok else "the body can run again without the condition having been evaluated and tested with is_truthy in between", fn.loc(), how="every cycle passes visit_expression(condition) and is_truthy")
-        if ok:
-            tb = truth[0]
-            tt = fn.term(tb)
-            sw = fn.term(tt["t"])
-            xor_ok = False
-            for s in fn.stmts(tt["t"]):
-                if s["k"] == "assign" and s["rv"].get("bin") == "bitxor":
-                    a, b = s["rv"]["a"], s["rv"]["b"]
-                    names = [x.get("const", {}).get("v", "") for x in (a, b)]
-                    if any("INVERT" in n for n in names) and (op_local(a) == tt["dest"]["l"] or op_local(b) == tt["dest"]["l"]):
-                        if sw["k"] == "switch" and op_local(sw["on"]) == s["pl"]["l"]:
-                            zero = [tgt for v, tgt in sw["targets"] if v == "0"]
-                            xor_ok = bool(zero) and S not in fn.reachable(zero[0], avoid=conds) and S in fn.reachable(sw["otherwise"], avoid=conds)
-            rep.ob("C04.R3", "runs-while-condition-xor-invert::" + name, xor_ok, "" if xor_ok else "the body does not run exactly on the nonzero edge of (INVERT ^ is_truthy(condition))", fn.loc(), how="bitxor(INVERT, truthy), nonzero edge reaches the body")
+        loop_trace_table(ctx, fn)
     for mname, inv in (("visit_while", "false"), ("visit_until", "true")):
         m = find_method(F, VP, mname, EXEC)
         if m is None:
@@ -416,3 +347,98 @@ def c04(ctx):
                 rep.ob("C04.R7", key, not again, "" if not again else "%s can execute %s again without looking at control_flow_state" % (fn.path, callee.def_.rsplit("::", 1)[-1]),
                        fn.loc(fn.term(bb)["line"]), how="every cycle passes a read of the state")
     rep.floor("C04.R7", n_sites, 2, "repeated-execution sites")
+
+
+
+def loop_trace_table(ctx, fn):
+    """C04.R3 by KIND: the runs of the loop runner over two rounds, with the condition (ok/err, truthy/falsy), the body (error, or
+    leaving each of the four control-flow states behind) and the scope operations as events, for INVERT = false and true, must be
+    exactly the runs of the language rule -- whatever shape the loop is written in"""
+    F, rep = ctx.F, ctx.rep
+    from .. import kind as _kind, kindtables as _kt
+    from ..kind import E as _E, c as _kc
+    EX, CFS = EXEC, "exec::exec_stmt::ControlFlowState"
+    RES_, PVO_ = "std::result::Result", "exec::produce_val::ProduceValOutput"
+    fields = [f["name"] for f in F.adts.get(EX, {"variants": [{"fields": []}]})["variants"][0]["fields"]]
+    if "control_flow_state" not in fields:
+        rep.fail("C04.R3", "anchor::control_flow_state", "ExecStmt.control_flow_state not found")
+        return
+    ci = fields.index("control_flow_state")
+    STATES = ("Normal", "Continuing", "Breaking", "Returning")
+    counter = [0]
+
+    def m_ve(I_, f, st, t, args, depth):
+        counter[0] += 1
+        n = counter[0]
+        yield _E(RES_, "Ok", _E(PVO_, "ProduceValOutput", ("sym", "v%d" % n))), None, ((("cond", n), "ok"),)
+        yield _E(RES_, "Err", ("sym", "cerr")), None, ((("cond", n), "err"),)
+
+    def m_truthy(I_, f, st, t, args, depth):
+        yield _kc(True), None, ((("truthy", _kind._short(args[0])), "T"),)
+        yield _kc(False), None, ((("truthy", _kind._short(args[0])), "F"),)
+
+    def m_vb(I_, f, st, t, args, depth):
+        selfv = I_.deref_value(st, args[0])
+        if isinstance(selfv, tuple) and selfv and selfv[0] == "e":
+            for stt in STATES:
+                flds = list(selfv[3])
+                flds[ci] = _E(CFS, stt)
+                yield _E(RES_, "Ok", ("t", ())), {0: ("e", selfv[1], selfv[2], tuple(flds))}, ((("block",), stt),)
+        else:
+            yield _E(RES_, "Ok", ("t", ())), None, ((("block",), "?"),)
+        yield _E(RES_, "Err", ("sym", "berr")), None, ((("block",), "err"),)
+
+    def ev(name):
+        def m(I_, f, st, t, args, depth):
+            yield ("t", ()), None, (((name,), "1"),)
+        return m
+    models = {"analysis::visit::VisitExpr::visit_expression": m_ve, "exec::val::Val::is_truthy": m_truthy, "analysis::visit::VisitProgram::visit_block": m_vb}
+    for f2 in F.all_fns():
+        if f2.path.endswith("::visit_block") and f2.path.startswith("<" + EX):
+            models[f2.path] = m_vb
+        if f2.path.endswith("::push_scope"):
+            models[f2.path] = ev("push")
+        if f2.path.endswith("::pop_scope"):
+            models[f2.path] = ev("pop")
+    # argument positions: self, the condition expression, the block
+    for invert in (False, True):
+        I_ = _kind.Interp(F, models=models)
+        I_.const_env = {"INVERT": _kc(invert)}
+        flds0 = [("sym", n_) for n_ in fields]
+        flds0[ci] = _E(CFS, "Normal")
+        selfv = ("e", EX, "ExecStmt", tuple(flds0))
+        got = set()
+        for o in I_.run(fn, [selfv, ("sym", "condition"), ("sym", "block")]):
+            tr = tuple((c_[0][0], c_[1]) for c_ in o.conds if isinstance(c_[0], tuple) and c_[0] and c_[0][0] in ("cond", "truthy", "block", "push", "pop"))
+            after = o.refs.get(1)
+            got.add((tr, _kt.term(o.ret), _kt.term(after[3][ci]) if after and after[0] == "e" else "Normal"))
+        # the language rule, two rounds deep (KIND cuts a loop after two visits of a block)
+        want = set()
+
+        def rounds(tr, state, depth):
+            want.add((tr + (("cond", "err"),), "Err(cerr)", state))
+            for x, xb in (("T", True), ("F", False)):
+                t2 = tr + (("cond", "ok"), ("truthy", x))
+                if not (invert ^ xb):
+                    want.add((t2, "Ok(())", state))
+                    continue
+                t3 = t2 + (("push", "1"),)
+                want.add((t3 + (("block", "err"),), "Err(berr)", state))
+                for stt in STATES:
+                    t4 = t3 + (("block", stt), ("pop", "1"))
+                    if stt == "Returning":
+                        want.add((t4, "Ok(())", "Returning"))
+                    elif stt == "Breaking":
+                        want.add((t4, "Ok(())", "Normal"))
+                    elif depth < 1:
+                        rounds(t4, "Normal", depth + 1)
+        rounds((), "Normal", 0)
+        ok = got == want and not I_.incomplete
+        why = ""
+        if not ok:
+            extra = sorted(got - want, key=str)[:1]
+            missing = sorted(want - got, key=str)[:1]
+            why = "loop runner with INVERT=%s: %s%s" % (invert, ("a run the language does not have: %s; " % (extra[0],)) if extra else "", ("a run of the language that is missing: %s" % (missing[0],)) if missing else "")
+        rep.ob("C04.R3", "loop-trace::INVERT=%s::%s" % (invert, fn.path), ok, why, fn.loc(),
+               how="%d runs over two rounds: condition before every round, body iff INVERT^truthy, Normal/Continuing go on (state Normal), Breaking leaves (state Normal), Returning leaves (state kept), errors end the loop" % len(want))
+    rep.exhaustive["C04.R3 loop runs over two rounds x INVERT"] = True
